@@ -31,7 +31,9 @@ try:
     k = os.path.basename(os.path.normpath(seed_dir))
     os.makedirs(os.path.join(wt, ".seed"), exist_ok=True)
     shutil.copytree(seed_dir, os.path.join(wt, ".seed", k))
-    demo_cmd = meta["demo_cmd"].replace("cd WORKTREE && ", "").replace("WORKTREE", wt)
+    import re
+    # the demonstration runs in the scratch worktree, whatever directory its author named
+    demo_cmd = re.sub(r"^\s*cd\s+\S+\s*&&\s*", "", meta["demo_cmd"]).replace("WORKTREE", wt)
     rc_clean, out_clean = sh(demo_cmd, cwd=wt)
     res["demo_passes_clean"] = rc_clean == 0
     res["ran"].append("clean worktree: " + demo_cmd + " -> exit %d" % rc_clean)
